@@ -13,7 +13,7 @@
    all amounts of fuel; `Done` = the run terminated within the fuel.
    No axioms. *)
 From Coq Require Import List Arith.
-From GV Require Import Close.Skel Close.Compile Close.VMclose Close.CompileProofs Close.RefProofs Close.SimProofs Close.NoClosed Close.FragL Close.SimL.
+From GV Require Import Close.Skel Close.Compile Close.VMclose Close.CompileProofs Close.RefProofs Close.SimProofs Close.NoClosed Close.FragL Close.FragA Close.SimA.
 Import ListNotations.
 
 (* exactly once: every closable value is closed as often as it was created *)
@@ -80,46 +80,35 @@ Theorem C10_tailcall_when_nothing_pending :
 Proof. exact tailcall_when_nothing_pending. Qed.
 Print Assumptions C10_tailcall_when_nothing_pending.
 
-(* compile_correct, stage reached (_partial): function bodies made of any
-   sequence of local statements (plain / <close> nil / closable, with or
-   without raising handler / non-closable), marks, raise, return — arbitrarily
-   deep nesting of the scopes compileBlockNoPop opens, exits by falling off the
-   end, return and error — run under pcall: the program compiles and the
-   close-stack VM on the compiled code yields the reference semantics' events
-   and outcome.  Missing: do-blocks, loops/break, goto/labels, calls, nested
-   pcall, coroutines (checked by evaluation on every generated program). *)
-Theorem C10_compile_correct_partial : forall b, straight b = true ->
-  forall fuel d ev o, run_ref fuel b d = Done (ev, o) ->
-  exists c fuel', compile b = Some c /\ run_vm fuel' c d = Done (ev, vout_of o).
-Proof. exact compile_correct_partial. Qed.
-Print Assumptions C10_compile_correct_partial.
-
 (* A whole program always ends normally at its protected call: outside a
    coroutine nothing is ever "closed" (the premise the stage-2 theorem needed). *)
 Theorem C10_run_ref_normal : forall fuel b d ev o, run_ref fuel b d = Done (ev, o) -> o = ONormal.
 Proof. exact run_ref_normal. Qed.
 Print Assumptions C10_run_ref_normal.
 
-(* compile_correct, stage 3 (_partial): the WHOLE skeleton language — locals of
-   all kinds, do, while, repeat (condition evaluated before the body's closes),
-   generic for with its closing value, break, goto and labels (pre-declaration by
-   getLabels, restart at a label, gotos leaving any number of scopes, backward
-   gotos over <close> variables), if, calls, `return f()` with and without pending
-   closes, nested pcall, coroutines closed while suspended, yield, raise, return,
-   at any nesting depth — under ONE syntactic discipline (FragL.fragBl): in every
-   block the label statements precede the block's first local statement.  For
-   every such program, decision stream and fuel on which the reference semantics
-   terminates: if the program compiles, the close-stack VM on the compiled code
-   terminates with exactly the reference semantics' events and outcome.
-   STILL MISSING for the unrestricted statement (hence _partial): labels placed
-   after a local statement of their own block — in particular the back-label
-   rule of compileBlockNoPop (`goto continue` to a label at the end of a block
-   that declares locals directly). *)
-Theorem C10_compile_correct_labels_first_partial : forall b, fragBl false b = true ->
-  forall fuel d ev o c, run_ref fuel b d = Done (ev, o) -> compile b = Some c ->
+(* compile_correct : run_vm (compile p) = run_ref p — the compiler-correctness
+   theorem of the close-stack slice for the WHOLE skeleton language, without any
+   restriction on the program: blocks, locals of all kinds, `local <close>`,
+   while / repeat (condition evaluated before the body's closes) / generic for
+   (with its closing value), break, goto and labels anywhere (labels declared per
+   scope by getLabels — every local statement opens a nested scope —, back labels
+   by getBackLabels, restart at a label, the VM's eager truncation on a jump to a
+   back label against the reference semantics' lazy closing), if, calls,
+   `return f()` with and without pending closes, nested pcall, coroutines closed
+   while suspended, yield, raise, return, at any nesting depth.  For every
+   program, decision stream and fuel on which the reference semantics
+   terminates: if the program compiles (goto targets visible, labels unique, break
+   inside a loop), the close-stack VM run on the compiled code terminates with
+   exactly the reference semantics' events and outcome.
+   (Invariants H1/H2 of DESIGN Appendix D.4; proof in Close/SimA.v: one induction
+   on the reference semantics' fuel; Close/FragA.v: getLabels/getBackLabels
+   specification, "a visible name is never a label of a nested scope", the code
+   behind a back label; no fuel, size or depth bound anywhere.) *)
+Theorem C10_compile_correct : forall b fuel d ev o c,
+  run_ref fuel b d = Done (ev, o) -> compile b = Some c ->
   exists fuel', run_vm fuel' c d = Done (ev, vout_of o).
-Proof. exact compile_correct_labels_first. Qed.
-Print Assumptions C10_compile_correct_labels_first_partial.
+Proof. exact compile_correct. Qed.
+Print Assumptions C10_compile_correct.
 
 (* The former refutation witness (coroutine.close of a coroutine suspended
    inside pcall): with Thread.CallContext repaired, the VM model agrees with the
